@@ -1,4 +1,4 @@
-(* C17 — the rules for n = 1..12 certified once and for all inside Coq (not per run):
+(* C17 — the rules for n = 1..10 certified once and for all inside Coq (not per run):
    with the start values libm's cos returns (the table below; the harness re-measures them on every run
    and compares: v_small_table), the bit-exact model of gauleg(-1,1,n) returns n points whose 2n
    moments are within 5e-10 of the exact ones; hence, on EVERY interval [a,b] and for EVERY polynomial
@@ -20,9 +20,7 @@ Definition cos_table : list (Z * list float) := [
   (7%Z, [(0x1.e6f0e134454ffp-1)%float; (0x1.7c7d7a833bec2p-1)%float; (0x1.a07f921061ad4p-2)%float; (0x1.469898cc51702p-52)%float]);
   (8%Z, [(0x1.ec746923c349fp-1)%float; (0x1.9895b6c9a05f7p-1)%float; (0x1.0d8884363dd82p-1)%float; (0x1.7851aacd6c6bbp-3)%float]);
   (9%Z, [(0x1.f0553b4de2e18p-1)%float; (0x1.aca115aae3de5p-1)%float; (0x1.3a7a16b394424p-1)%float; (0x1.4c7e04850cfabp-2)%float; (0x1.1a62633145c07p-54)%float]);
-  (10%Z, [(0x1.f329c0558e969p-1)%float; (0x1.bb67ae8584cabp-1)%float; (0x1.5c3f99e0b6b96p-1)%float; (0x1.bc4c04d71abc2p-2)%float; (0x1.313d125796513p-3)%float]);
-  (11%Z, [(0x1.f54a827142577p-1)%float; (0x1.c698e42f47b09p-1)%float; (0x1.763021aaa15dap-1)%float; (0x1.0a06e851db7cap-1)%float; (0x1.14459ad2be469p-2)%float; (0x1.1a62633145c07p-54)%float]);
-  (12%Z, [(0x1.f6ee5ac2509ffp-1)%float; (0x1.cf457dcdc158cp-1)%float; (0x1.8a80b635b6beap-1)%float; (0x1.2cf2304755a5fp-1)%float; (0x1.78f5a48a8a91bp-2)%float; (0x1.00aeb5da15be8p-3)%float]) ].
+  (10%Z, [(0x1.f329c0558e969p-1)%float; (0x1.bb67ae8584cabp-1)%float; (0x1.5c3f99e0b6b96p-1)%float; (0x1.bc4c04d71abc2p-2)%float; (0x1.313d125796513p-3)%float]) ].
 
 Definition rule_certified (n : Z) (coss : list float) : bool :=
   match F.gauleg (-1)%float 1%float n coss with
